@@ -349,7 +349,7 @@ var c09FixedFiles = []srcFile{
 {msg desc="eggs"}{plural $n}{case 1}one egg{default}{$n} eggs{/plural}{/msg}
 {foreach $i in $items}{if isFirst($i)}[{/if}{$i}{if not isLast($i)},{else}]{/if}{ifempty}none{/foreach}
 {call .row data="all"}{param label}<b>{$name}</b>{/param}{/call}
-{call fix.two.cell data="$rec" /}
+{call fix.two.cell data="$rec" /}{call fix.two.cell data="$rec"}{param b: $name /}{param c: $items /}{/call}
 {let $k}{foreach $x in keys($rec)}{$x};{/foreach}{/let}{$k}
 {$ij.s}{$ij.n + 1}{$ij.rec.b}
 {switch $n}{case 0}zero{case 1, 2}few{default}many{/switch}
@@ -435,7 +435,7 @@ func c09Layout(e *env, c *c09Case, idx int) {
 	if e.tier == "thorough" {
 		c.G, c.R, c.JSWriters, c.Compilers = 16, 2000, 2, 2
 	} else {
-		c.G, c.R, c.JSWriters, c.Compilers = 4, 50, 1, 1
+		c.G, c.R, c.JSWriters, c.Compilers = 4, 50, 2, 2
 	}
 }
 
@@ -798,6 +798,9 @@ func c09ModelTie(e *env, bt *c09Built, r *c09Result) {
 			}
 		default:
 			e.res.Histogram["model-"+cls]++
+			if cls == "crash" && len(mr[0]) > 6 {
+				e.res.Histogram["model-crash:"+hx.UnH(strings.TrimPrefix(mr[0], "crash,"))]++
+			}
 		}
 	}
 }
@@ -884,6 +887,19 @@ func c09Render(tofu *soyhtml.Tofu, name string, d data.Map, ij data.Map, msgs so
 	if msgs != nil {
 		rd = rd.WithMessages(msgs)
 	}
+	if err := rd.Execute(w, d); err != nil {
+		return "err:" + hex.EncodeToString(w.buf.Bytes())
+	}
+	return "ok:" + hex.EncodeToString(w.buf.Bytes())
+}
+
+func c09Execute(rd *soyhtml.Renderer, d data.Map, limit int) (res string) {
+	w := &c09Writer{limit: limit}
+	defer func() {
+		if p := recover(); p != nil {
+			res = "panic:" + hex.EncodeToString(w.buf.Bytes())
+		}
+	}()
 	if err := rd.Execute(w, d); err != nil {
 		return "err:" + hex.EncodeToString(w.buf.Bytes())
 	}
@@ -1010,6 +1026,31 @@ func c09RunCase(c *c09Case) *c09Result {
 		}
 	}
 
+	// an independent bundle with the SAME template names and other bodies, compiled
+	// concurrently by every second compile goroutine: cross-talk between
+	// compilations keyed by name would show in its bytes
+	variant := make([]srcFile, len(c.Files))
+	for k, f := range c.Files {
+		variant[k] = srcFile{f.Name, strings.Replace(f.Text, "\n{/template}", "{sp}VARIANT\n{/template}", -1)}
+	}
+	soloV := make([]string, len(c.Jobs))
+	if vreg, err := c09Compile(variant); err == nil {
+		for j, job := range c.Jobs {
+			soloV[j] = c09Render(soyhtml.NewTofu(vreg), job.Template, datas[j], ij, msgs, -1)
+		}
+	} else {
+		r.SetupErr = "variant bundle: " + err.Error()
+		return r
+	}
+	// one Renderer value per job, built once and shared by some goroutines (Execute has a value receiver)
+	rds := make([]*soyhtml.Renderer, len(c.Jobs))
+	for j, job := range c.Jobs {
+		rds[j] = tofu.NewRenderer(job.Template).Inject(ij)
+		if msgs != nil {
+			rds[j] = rds[j].WithMessages(msgs)
+		}
+	}
+
 	before := []string{deepDigest(shared), deepDigest(datas), deepDigest(ij), deepDigest(msgs)}
 
 	// the concurrent phase
@@ -1034,7 +1075,12 @@ func c09RunCase(c *c09Case) *c09Result {
 				if g%4 == 3 && k%2 == 1 { // some renders meet a failing writer
 					want, limit = soloF[j], soloLimit(solo[j])
 				}
-				got := c09Render(tofu, c.Jobs[j].Template, datas[j], ij, msgs, limit)
+				var got string
+				if g%4 == 1 {
+					got = c09Execute(rds[j], datas[j], limit) // the shared Renderer value
+				} else {
+					got = c09Render(tofu, c.Jobs[j].Template, datas[j], ij, msgs, limit)
+				}
 				counts[g]++
 				if got != want && len(diffs[g]) == 0 {
 					diffs[g] = append(diffs[g], fmt.Sprintf("goroutine %d render %d of %s (writer limit %d): alone %s, concurrently %s", g, k, c.Jobs[j].Template, limit, clip(want), clip(got)))
@@ -1067,7 +1113,11 @@ func c09RunCase(c *c09Case) *c09Result {
 			<-startCh
 			n := c.R/16 + 1
 			for k := 0; k < n; k++ {
-				reg, err := c09Compile(c.Files)
+				files, want := c.Files, solo
+				if (slot+k)%2 == 1 {
+					files, want = variant, soloV
+				}
+				reg, err := c09Compile(files)
 				counts[slot]++
 				if err != nil {
 					if len(diffs[slot]) == 0 {
@@ -1078,8 +1128,8 @@ func c09RunCase(c *c09Case) *c09Result {
 				j := k % nj
 				// the independent bundle gets its own data copy?  No: data is shared on purpose.
 				got := c09Render(soyhtml.NewTofu(reg), c.Jobs[j].Template, datas[j], ij, msgs, -1)
-				if got != solo[j] && len(diffs[slot]) == 0 {
-					diffs[slot] = append(diffs[slot], fmt.Sprintf("independent bundle compiled concurrently renders %s differently: alone %s, now %s", c.Jobs[j].Template, clip(solo[j]), clip(got)))
+				if got != want[j] && len(diffs[slot]) == 0 {
+					diffs[slot] = append(diffs[slot], fmt.Sprintf("independent bundle compiled concurrently renders %s differently: alone %s, now %s", c.Jobs[j].Template, clip(want[j]), clip(got)))
 				}
 			}
 		}(c.G + c.JSWriters + x)
